@@ -178,3 +178,77 @@ pub proof fn lemma_lcm_fold_none_stable(vals: Seq<Option<usize>>, k: int, n: int
     if k < n { lemma_lcm_fold_none_stable(vals, k, n - 1); }
 }
 }
+verus!{
+// ---------- powers of two (the alignments of the C03 domain) ----------
+pub open spec fn pow2(n: nat) -> bool
+    decreases n
+{
+    if n == 0 { false } else if n == 1 { true } else { n % 2 == 0 && pow2(n / 2) }
+}
+/// two powers of two: the smaller divides the larger
+pub proof fn lemma_pow2_chain(a: nat, b: nat)
+    requires pow2(a), pow2(b), a <= b
+    ensures b % a == 0
+    decreases a
+{
+    if a == 1 {
+        assert(b % 1 == 0) by (nonlinear_arith);
+    } else {
+        // a even, a/2 a power of two; b >= a >= 2 so b is even too
+        assert(b != 1);
+        lemma_pow2_chain(a / 2, b / 2);
+        let x = b / 2; let y = a / 2;
+        assert(b == 2 * x && a == 2 * y) by (nonlinear_arith) requires b % 2 == 0, a % 2 == 0, x == b / 2, y == a / 2;
+        vstd::arithmetic::div_mod::lemma_fundamental_div_mod(x as int, y as int);
+        let k = x / y;
+        assert(x == y * k);
+        assert(b == a * k) by (nonlinear_arith) requires b == 2 * x, a == 2 * y, x == y * k;
+        vstd::arithmetic::div_mod::lemma_mod_multiples_basic(k as int, a as int);
+        assert(k * a == a * k) by (nonlinear_arith);
+    }
+}
+pub open spec fn all_pow2(vals: Seq<Option<usize>>) -> bool {
+    forall|i: int| 0 <= i < vals.len() ==> (#[trigger] vals[i]) is Some && pow2(vals[i]->0 as nat)
+}
+pub open spec fn all_le(vals: Seq<Option<usize>>, k: int, bound: usize) -> bool {
+    forall|i: int| 0 <= i < k ==> (#[trigger] vals[i]) is Some && vals[i]->0 <= bound
+}
+/// for power-of-two values the least common multiple is the largest value (1 for none): it never overflows,
+/// it is a power of two, and "lcm <= A" says exactly "every value <= A"
+pub proof fn lemma_lcm_fold_pow2(vals: Seq<Option<usize>>, k: int)
+    requires 0 <= k <= vals.len(), all_pow2(vals)
+    ensures
+        lcm_fold(vals, k) is Some,
+        pow2(lcm_fold(vals, k)->0 as nat),
+        forall|bound: usize| bound >= 1 ==> (#[trigger] all_le(vals, k, bound) <==> lcm_fold(vals, k)->0 <= bound),
+    decreases k
+{
+    if k > 0 {
+        lemma_lcm_fold_pow2(vals, k - 1);
+        let acc = lcm_fold(vals, k - 1)->0;
+        let x = vals[k - 1]->0;
+        assert(vals[k - 1] is Some && pow2(x as nat));
+        if acc <= x { lemma_pow2_chain(acc as nat, x as nat); } else { lemma_pow2_chain(x as nat, acc as nat); }
+        lemma_spec_lcm_step_chain(acc, x);
+        let m = lcm_fold(vals, k)->0;
+        assert(m == (if x % acc == 0 { x } else { acc }));
+        assert forall|bound: usize| bound >= 1 implies (#[trigger] all_le(vals, k, bound) <==> m <= bound) by {
+            assert(all_le(vals, k - 1, bound) <==> acc <= bound);
+            if all_le(vals, k, bound) {
+                assert(vals[k - 1]->0 <= bound);
+                assert forall|i: int| 0 <= i < k - 1 implies (#[trigger] vals[i]) is Some && vals[i]->0 <= bound by {}
+            }
+            if m <= bound {
+                assert(acc <= m && x <= m) by {
+                    if x % acc == 0 { lemma_divisor_le(acc as nat, x as nat); } else { lemma_divisor_le(x as nat, acc as nat); }
+                }
+                assert forall|i: int| 0 <= i < k implies (#[trigger] vals[i]) is Some && vals[i]->0 <= bound by {
+                    if i < k - 1 { assert(all_le(vals, k - 1, bound)); }
+                }
+            }
+        }
+    } else {
+        assert forall|bound: usize| bound >= 1 implies (#[trigger] all_le(vals, 0, bound) <==> 1usize <= bound) by {}
+    }
+}
+}
